@@ -60,6 +60,34 @@ impl BlockingRegistry {
     { unimplemented!() }
 }
 
+// unregister_client, step by step (the iter_mut loop as a whole has no vstd specification: that every key is visited is std's meaning of
+// iter_mut; under contract is what happens at each key): the leaving client goes from this key's queue and EVERY OTHER WAITER KEEPS ITS PLACE
+// (C13: "clients blocked on a key are served in the order they blocked"); a queue that became empty is queued for removal, and the removal
+// takes the key out of both tables
+/// `clients.retain(|client| client.conn_id != conn_id)` (RXPR site, exact text): ASSUMED std meaning of VecDeque::retain — the elements that
+/// satisfy the predicate, in their old order
+#[verifier::external_body]
+fn verif_retain_others(clients: &mut VecDeque<BlockedClient>, conn_id: u64)
+    ensures final(clients)@ == old(clients)@.filter(|c: BlockedClient| c.conn_id != conn_id),
+{ unimplemented!() }
+//@@ unit unregister_key_step loopbody src/network/blocking.rs BlockingRegistry::unregister_client "for (key, clients) in self.blocked_on_key.iter_mut()"
+//@@   rewrite RXPR "clients.retain(|client| client.conn_id != conn_id)" "verif_retain_others(clients, conn_id)"
+fn unregister_key_step(key: &Vec<u8>, clients: &mut VecDeque<BlockedClient>, keys_to_remove: &mut Vec<Vec<u8>>, conn_id: u64)
+    ensures
+        final(clients)@ == old(clients)@.filter(|c: BlockedClient| c.conn_id != conn_id),
+        final(clients)@.len() == 0 ==> final(keys_to_remove)@.len() == old(keys_to_remove)@.len() + 1 && final(keys_to_remove)@.last()@ == key@
+            && final(keys_to_remove)@.drop_last() =~= old(keys_to_remove)@,
+        final(clients)@.len() != 0 ==> final(keys_to_remove)@ == old(keys_to_remove)@,
+//@@ body
+//@@ end
+impl BlockingRegistry {
+//@@ unit unregister_drop_key loopbody src/network/blocking.rs BlockingRegistry::unregister_client "for key in keys_to_remove"
+    fn unregister_drop_key(&mut self, key: Vec<u8>)
+        ensures final(self).blocked_on_key@ == old(self).blocked_on_key@.remove(key), final(self).blocked_keys@ == old(self).blocked_keys@.remove(key),
+//@@ body
+//@@ end
+}
+
 // the branch of notify_key_ready that picks the client to serve (C13: "once served ... a client has no leftover
 // registration that could swallow later elements or cut short a later blocking call")
 //@@ unit notify_served_arm arm src/network/blocking.rs BlockingManager::notify_key_ready "Some(c)"
